@@ -13,10 +13,15 @@ var props = []*common.Prop{
 		Gen:    func(r *simrt.Rand, tier string, idx int) interface{} { return genHTTPCase(r, tier, idx) },
 		Run:    runHTTP,
 		Shrink: shrinkHTTP, Exclude: excludeHTTP},
-	{ID: "C14", New: func() interface{} { return &WSCase{} },
-		Gen:    func(r *simrt.Rand, tier string, idx int) interface{} { return genWSCase(r, tier) },
-		Run:    runWS,
-		Shrink: shrinkWS},
+	common.Combine("C14",
+		common.Part{Name: "server", Weight: 4, P: &common.Prop{ID: "C14", New: func() interface{} { return &WSCase{} },
+			Gen:    func(r *simrt.Rand, tier string, idx int) interface{} { return genWSCase(r, tier) },
+			Run:    runWS,
+			Shrink: shrinkWS}},
+		common.Part{Name: "dialer", Weight: 1, P: &common.Prop{ID: "C14", New: func() interface{} { return &WSDialCase{} },
+			Gen:    func(r *simrt.Rand, tier string, idx int) interface{} { return genWSDialCase(r, tier) },
+			Run:    runWSDial,
+			Shrink: shrinkWSDial}}),
 	{ID: "C11", New: func() interface{} { return &OwnE2E{} },
 		Gen:    func(r *simrt.Rand, tier string, idx int) interface{} { return genOwnE2E(r, tier, idx) },
 		Run:    runOwnE2E,
